@@ -208,7 +208,8 @@ pub fn validate_signature(sig: &str) -> Result<()> {
                             return Err(Error::InvalidSignature(signature::Error::InvalidSignature))
                         }
                     }
-                    let val_sig_len = validate_next(sig, pos + 2, array_depth, bracket_depth + 1)?;
+                    // dict entries do not count towards the struct nesting, they are limited by their array
+                    let val_sig_len = validate_next(sig, pos + 2, array_depth, bracket_depth)?;
                     let inner_sigs_len = 1 + val_sig_len;
                     if pos + inner_sigs_len + 1 >= sig.len() {
                         Err(Error::InvalidSignature(signature::Error::InvalidSignature))
@@ -229,6 +230,9 @@ pub fn validate_signature(sig: &str) -> Result<()> {
                         return Err(Error::InvalidSignature(signature::Error::InvalidSignature));
                     }
                     if sig[pos + counter] == b')' {
+                        if counter == 1 {
+                            return Err(Error::InvalidSignature(signature::Error::EmptyStruct));
+                        }
                         counter += 1;
                         break;
                     }
